@@ -72,6 +72,9 @@ func (l *genericFileSessionLoader) Load() (*Session, error) {
 
 func (l *genericFileSessionLoader) Store(s *Session) error {
 	dir, _ := filepath.Split(l.path)
+	if dir == "" {
+		dir = "." // bare file name, session is stored in current directory
+	}
 	if !dry.FileExists(dir) {
 		return fmt.Errorf("%v: directory not found", dir)
 	}
@@ -83,7 +86,16 @@ func (l *genericFileSessionLoader) Store(s *Session) error {
 	file.writeSession(s)
 	data, _ := json.Marshal(file)
 
-	return ioutil.WriteFile(l.path, data, 0600)
+	err := ioutil.WriteFile(l.path, data, 0600)
+	if err != nil {
+		return err
+	}
+
+	// modification time of file could stay the same (it depends on granularity of file system clock), so
+	// cached session can't be trusted anymore
+	l.cached = nil
+
+	return nil
 }
 
 type tokenStorageFormat struct {
